@@ -2,15 +2,17 @@
 import os
 
 LEVEL = "exploration"
-LEVEL_TEXT = ("bounded stand-in (labelled as such): on seeded random trees (all byte values, non-ASCII labels, depth <= 4) tree_to_json produces valid JSON recording type, value (hex), "
-              "obfuscation, start, end and children; json_to_tree returns an equal tree with correct parent links; equality is structural (changing any one field of any one "
-              "descendant, or adding / dropping a trailing child, makes trees unequal); the CLI is run in a sub-process (file argument and stdin, binary input, --json, default, "
-              "--replace, --keywords) and compared with the library on the same bytes; squash_replace equals flatten when substituted results do not overlap")
-LEVEL_NOTE = ("not proved: a structural-induction proof of as_node(node_to_dict(n)) == n needs an algebraic tree datatype in the encoding, which the current pyvc does not have; json / argparse are "
-              "trusted library code")
-DESIGN_REF = "DESIGN.md 6 (C20)"
-TECHNIQUE = "bounded run-time contract evaluation (round trip on random trees, CLI in a sub-process)"
-FUNCTIONS = []
+LEVEL_TEXT = ("structural equality is PROVED: Node.__eq__(a, b) == tree_eq(a, b) for all finite trees, where tree_eq compares type, value, obfuscation, start, end and, pairwise, the "
+              "children (list == on node lists modelled as CPython does it: equal lengths, then identity-or-__eq__ element by element; lemmas children-equal-pairwise and "
+              "tree-eq-reflexive proved in the same run) - so a difference in any field of any descendant, or a missing / extra child, makes trees unequal. Everything else is a "
+              "bounded stand-in (labelled as such): on seeded random trees (all byte values, non-ASCII labels, depth <= 4) tree_to_json produces valid JSON recording type, value (hex), "
+              "obfuscation, start, end and children; json_to_tree returns an equal tree with correct parent links; the CLI is run in a sub-process (file argument and stdin, binary input, "
+              "--json, default, --replace, --keywords) and compared with the library on the same bytes; squash_replace equals flatten when substituted results do not overlap")
+LEVEL_NOTE = ("the claimed level stays `exploration` because only the equality clause is proved; not proved: as_node(node_to_dict(n)) == n (dict / JSON values are outside the encoding), the CLI; "
+              "Node.__eq__ is proved for `other` a Node (isinstance is not modelled); json / argparse are trusted library code")
+DESIGN_REF = "DESIGN.md 6 (C20), 14"
+TECHNIQUE = "contract-based deductive verification of Node.__eq__ (pyvc, recursive specification function + two induction lemmas) + bounded run-time contract evaluation (round trip on random trees, CLI in a sub-process)"
+FUNCTIONS = ["multidecoder.node.Node.__eq__"]
 RULE = "evaluations = trees / CLI runs compared; distinct = distinct trees with at least one child and distinct CLI modes"
 EXPLANATION = "bounded stand-in"
 SRC = os.environ.get("VERIF_SRC", "/repo/src")
